@@ -108,6 +108,9 @@ def run_cases(unit_name, cases, opts, world=None):
                 rp = {'status': 'replay-error', 'error': f'{type(ex).__name__}: {ex}', 'trace': traceback.format_exc(limit=6)}
             if rp is None:
                 rp = {'status': 'no-replay', 'reason': 'no function-level replay defined for this contract'}
+            if o.extra.get('needs_validation') and rp.get('status') != 'reproduced':
+                o.result = 'unknown'; o.backend = (o.backend or '') + ' candidate model not reproduced'
+                continue
             violations.append({'obligation': o.name, 'replay': rp, 'model': model_text(o.model) if o.model is not None else None})
     return {
         'unit': unit_name, 'kind': 'deductive', 'functions': rep.functions,
